@@ -47,6 +47,7 @@ Fields == { <<"Evt", "met", "Int">>, <<"Evt", "n", "Int">>, <<"Evt", "jets", "Se
 Binders == CASE Fam \in {"fuse1", "chain1", "md1", "chainx", "chainp", "mdp", "fused", "chainf", "e2el"} -> {"x"}
              [] Fam = "helper" -> {"a", "t", "a_1"}     \* (a_1: what an inner binder a is renamed to when it collides)
              [] Fam = "e2eb" -> {"x", "x_1"}
+             [] Fam = "aggs" -> {"len", "x"}         \* a lambda parameter named like a shortcut (used as a value, never called)
              [] Fam = "betads" -> {"ds"}        \* a called lambda's parameter named like the (free) dataset name
              [] Fam = "corea" -> {"arg_0", "arg_1", "arg_e"}     \* names the simplifier itself generates / names that look alike
              [] OTHER -> {"x", "y"}
@@ -86,6 +87,9 @@ ProdSet ==
       [] Fam = "mdp"   -> {"Select", "MD", "Pack", "MDDef"}
       [] Fam = "meth"  -> {"Select", "Where", "SelectMany", "First", "Count", "Cmp", "Add", "Sum",
                                     "MethArgs", "OtherMeth", "KwOp"}
+      [] Fam = "aggs"  -> {"Select", "Len", "Sum", "Add", "First"}
+      \* method-form operators inside the callee of a call: a called lambda, a subscripted table of functions, a function's result
+      [] Fam = "methb" -> {"Select", "Where", "Count", "First", "Cmp", "Beta", "CalleeOp"}
       [] Fam = "agg2"  -> {"Select", "Where", "Count", "Len", "Sum", "Max", "Min", "Add", "Cmp",
                                     "AggOdd", "First"}
       [] Fam = "md1"   -> {"Select", "Where", "Count", "Cmp", "MD"}
@@ -165,7 +169,7 @@ Split3(r) == {<<q[1], q[2], r - q[1] - q[2]>> : q \in {w \in (0..r) \X (0..r) : 
 Push(ns, x) == Append(ns, x)
 
 (* function form Op(src, args) and, in the method-form families, src.Op(args) *)
-MethForm == Fam \in {"meth", "e2e", "e2et", "e2eb", "e2el"}
+MethForm == Fam \in {"meth", "methb", "e2e", "e2et", "e2eb", "e2el"}
 FnForm == Fam \notin {"e2e", "e2et", "e2eb", "e2el"}          \* the end-to-end family writes operators the way users do: seq.Op(...)
 Forms(op, src, rest) == (IF FnForm THEN {Fn(op, <<src>> \o rest)} ELSE {})
                           \cup (IF MethForm THEN {Meth(src, op, rest)} ELSE {})
@@ -298,6 +302,12 @@ NonLeaf(h) ==
              \cup {CallK(LamG("po0ko1va0kw0", 0, <<x, "k">>, mix(Name(x), Name("k")), <<>>, <<Absent>>), <<hs[1]>>, <<"k">>, <<hs[2]>>) :
                        hs \in h2, x \in Binders}
        ELSE {}) \cup
+      (* a call whose callee is neither a name nor an attribute and contains a sequence operator: fs[Count(seq)](x), make(seq)(x) *)
+      (IF s = "Int" /\ Enabled("CalleeOp") THEN
+          UNION {UNION {{CallP(Sub(Name("fs"), c), <<Hole("Int", sp[2], ns, ss)>>),
+                         CallP(Fn("make", <<c>>), <<Hole("Int", sp[2], ns, ss)>>)} :
+                           c \in Forms("Count", Hole("SeqJet", sp[1], ns, ss), <<>>)} : sp \in Split2(r)}
+       ELSE {}) \cup
       (* a parameter-less called lambda *)
       (IF s = "Int" /\ Enabled("Thunk") THEN {CallP(Lam(<<>>, Hole("Int", r, ns, ss)), <<>>)} ELSE {}) \cup
       (* a called lambda that selects over its argument; its inner lambda re-uses a binder name and its body sees *)
@@ -315,7 +325,7 @@ NonLeaf(h) ==
       (* ---- integers ---- *)
       (IF s = "Int" /\ Enabled("Count") THEN
           UNION {Forms("Count", Hole(SeqOf(y), r, ns, ss), <<>>) : y \in ElemSorts} ELSE {}) \cup
-      (IF s = "Int" /\ Enabled("Len") THEN
+      (IF s = "Int" /\ Enabled("Len") /\ "len" \notin Range(ns) THEN
           {Fn("len", <<Hole(SeqOf(y), r, ns, ss)>>) : y \in {"Jet", "Int"}} ELSE {}) \cup
       (IF s = "Int" /\ Enabled("Sum") THEN Forms("Sum", Hole("SeqInt", r, ns, ss), <<>>) ELSE {}) \cup
       (IF s = "Int" /\ Enabled("AggOdd") THEN
@@ -324,7 +334,9 @@ NonLeaf(h) ==
           {IfExp(BoolC(TRUE), Hole("Int", r, ns, ss), x) :
               x \in {Name("Sum"), Name("Count"), Fn("Count", <<>>), Fn("Min", <<>>)}} \cup
           {Meth(Hole("SeqInt", r, ns, ss), op, <<>>) : op \in {"Sum", "Count", "Max", "Min"}} \cup
-          {IfExp(BoolC(TRUE), Hole("Int", r, ns, ss), Meth(Name("ds"), "len", <<>>))}
+          {IfExp(BoolC(TRUE), Hole("Int", r, ns, ss), Meth(Name("ds"), "len", <<>>))} \cup
+          \* a shortcut name called with a keyword argument is not a one-argument call: it stays as it is
+          {CallK(Name(op), <<Hole("SeqInt", r, ns, ss)>>, <<"start">>, <<IntC(5)>>) : op \in {"Sum", "len", "Count"}}
        ELSE {}) \cup
       (IF s \in SeqSorts /\ Enabled("OtherMeth") THEN
           UNION {{Meth(Hole(SeqOf(y), sp[1], ns, ss), nm,
@@ -517,12 +529,13 @@ RootSorts == CASE Fam = "chainp" -> {"SeqInt", "SeqSeqInt"}
                [] Fam \in {"idx", "chain", "chain1", "chainx", "chainf"} -> {"SeqInt"}
                [] Fam \in {"betads", "betav"} -> {"SeqInt", "Int"}
                [] Fam = "betaw" -> {"SeqTrk", "SeqJet"}
-               [] Fam \in {"agg"} -> {"SeqInt", "Int"}
+               [] Fam \in {"agg", "aggs"} -> {"SeqInt", "Int"}
                [] Fam = "helper" -> {"SeqInt", "SeqJet"}
                [] Fam = "e2e" -> {"SeqInt", "SeqJet", "SeqEvt"}
                [] Fam = "e2et" -> {"SeqInt"}
                [] Fam = "e2el" -> {"SeqInt", "SeqJet", "SeqTrk"}
                [] Fam = "e2eb" -> {"SeqSeqSeqInt", "SeqSeqInt"}
+               [] Fam = "methb" -> {"SeqInt", "Int"}
                [] Fam \in {"meth", "md", "md1"} -> {"SeqInt", "SeqJet", "SeqEvt", "SeqTrk", "Int"}
                [] OTHER -> {"SeqInt", "SeqJet", "Int"}
 Roots == {Hole(s, Budget, <<>>, <<>>) : s \in RootSorts}
